@@ -123,6 +123,24 @@ def difference(impl_re, spec_re, max_len, timeout_ms=60000):
     return r, w, time.time() - t0
 
 
+def inclusion(impl_re, spec_re, max_len, timeout_ms=60000):
+    """A string (len <= max_len, ASCII) in impl but not in spec.  Returns (status, witness, seconds)."""
+    import time
+    s = z3.String('s')
+    sol = z3.Solver()
+    sol.set('timeout', timeout_ms)
+    sol.add(z3.Length(s) <= max_len)
+    sol.add(z3.InRe(s, z3.Star(_any_char())))
+    sol.add(z3.InRe(s, impl_re), z3.Not(z3.InRe(s, spec_re)))
+    t0 = time.time()
+    r = str(sol.check())
+    w = None
+    if r == 'sat':
+        w = sol.model()[s].as_string()
+        w = w.encode('ascii', 'ignore').decode('unicode_escape') if '\\u{' not in w else _unescape(w)
+    return r, w, time.time() - t0
+
+
 def _unescape(w):
     import re
     return re.sub(r'\\u\{([0-9a-fA-F]+)\}', lambda m: chr(int(m.group(1), 16)), w)
